@@ -26,6 +26,68 @@ func runC18Gaps2(c *eng.Ctx) {
 	c18RewrapWrapsAgain(c)
 	c18Policy(c)
 	c18LookupNamespace(c)
+	c18RewrapNamespace(c)
+	c18RevokeByEntryID(c)
+}
+
+// ---------- C18.13 a rewrap consumes, reads and revokes in the wrapping token's namespace
+// (the request context carries the CALLER's namespace: UseTokenByID finds the
+// namespace from the id, but the cubbyhole mount and the salt revokeOrphan
+// uses are the context's; unwrap and lookup switch, rewrap must as well)
+func c18RewrapNamespace(c *eng.Ctx) {
+	f := c.Fn("vault.(*SystemBackend).handleWrappingRewrap")
+	if f == nil {
+		return
+	}
+	c.Clause("R5", "C18.13")
+	n := 0
+	seen := map[*ssa.Call]bool{}
+	for _, pat := range []string{`^vault\.\(\*TokenStore\)\.UseTokenByID$`, `^vault\.\(\*TokenStore\)\.revokeOrphan$`, `^routing\.\(\*Router\)\.Route$`} {
+		for _, cl := range eng.Calls(f, pat) {
+			n++
+			ctxArg := cl.Common().Args[1]
+			if !c.Prov(f, "context of "+eng.CalleeName(cl.Common())+" = the wrapping token's namespace", cl, ctxArg, `^call:namespace\.ContextWithNamespace$`) {
+				continue
+			}
+			for _, o := range eng.Origins(ctxArg) {
+				if cw, isCall := o.Val.(*ssa.Call); isCall && !seen[cw] {
+					seen[cw] = true
+					c.Prov(f, "namespace the rewrap context is switched to", cw, cw.Call.Args[1], `^call:vault\.\(\*Core\)\.NamespaceByID#0$`)
+				}
+			}
+		}
+	}
+	c.Floor(f, "namespace-sensitive steps of the rewrap (UseTokenByID, revokeOrphan, two cubbyhole reads)", n, 4)
+	for _, nb := range eng.Calls(f, `^vault\.\(\*Core\)\.NamespaceByID$`) {
+		a := nb.Common().Args
+		s := eng.Expr(a[len(a)-1])
+		if strings.HasSuffix(s, ".NamespaceID") && strings.Contains(s, "lookupTainted()#0") {
+			c.OK(f, "namespace looked up = the wrapping token's", nb.Pos(), s)
+		} else {
+			c.Violation(f, "namespace looked up = the wrapping token's", nb.Pos(), "NamespaceByID("+s+")", nil)
+		}
+	}
+}
+
+// ---------- C18.14 the revocation after a third-party unwrap / rewrap names the entry's own ID
+// (revokeOrphan salts what it is given; the token named in a request body is
+// in its external, signed form, which salts to nothing that is stored)
+func c18RevokeByEntryID(c *eng.Ctx) {
+	for _, fn := range []string{"vault.(*SystemBackend).handleWrappingRewrap", "vault.(*SystemBackend).responseWrappingUnwrap"} {
+		f := c.Fn(fn)
+		if f == nil {
+			continue
+		}
+		c.Clause("R5", "C18.14")
+		revs := eng.Calls(f, `^vault\.\(\*TokenStore\)\.revokeOrphan$`)
+		if !c.Floor(f, "revokeOrphan of the consumed wrapping token", len(revs), 1) {
+			continue
+		}
+		for _, r := range revs {
+			c.Prov(f, "token revoked after the payload was read = the looked-up entry's ID", r, r.Common().Args[2],
+				`^field:te\.ID$`, `^field:vault\.\(\*TokenStore\)\.lookupTainted\(\)#0\.ID$`)
+		}
+	}
 }
 
 // ---------- C18.12 lookup reads the wrap info in the wrapping token's namespace
